@@ -11,3 +11,9 @@ if os.path.exists(os.path.join(_D, "not_applicable.json")):
 HOOK_COMMITS = []
 if os.path.exists(os.path.join(_D, "hook_commits.json")):
     HOOK_COMMITS = json.load(open(os.path.join(_D, "hook_commits.json")))
+
+# Only vetted properties are claimed in MANIFEST.json and built by setup: the coordinator adds
+# an id to props/registered.json once `./check Cxx` passes on the unchanged tree.
+REGISTERED = []
+if os.path.exists(os.path.join(_D, "registered.json")):
+    REGISTERED = json.load(open(os.path.join(_D, "registered.json")))
